@@ -115,7 +115,7 @@ def prepare(case, plant, idx, conv, k, grid, float32, dead=frozenset()):
         i0 = d0 = None
         sc0 = plant['sc0']
         target = [math.log10(conv[j][m0][0]) + av0 * k[j] - 2. * sc0 for j in range(nf)]
-    if any(abs(t) > 100. for t in target):
+    if any(not (abs(t) <= 100.) for t in target):
         return 'skip', 'flux_out_of_float_range_skipped'
     flux, err = [], []
     limits = list(plant.get('limits') or []) + [None] * nf
@@ -280,7 +280,7 @@ def run_case(case, ctx):
             with must_succeed('Fitter.fit on the fitter made before fit()'), quiet():
                 ie = early.fit(gen.source_object(rsrc))
             if str(ie.model_name[0]).strip() != names[p0['m0']] or not float(ie.chi2[0]) <= 1e-6 + 2 * p0['slack0'] or \
-                    abs(float(ie.av[0]) - p0['av0']) > p0['av_tol'] or abs(float(ie.sc[0]) - p0['sc0']) > p0['sc_tol']:
+                    not (abs(float(ie.av[0]) - p0['av0']) <= p0['av_tol']) or not (abs(float(ie.sc[0]) - p0['sc0']) <= p0['sc_tol']):
                 fail('%s: a Fitter created before fit() ran on the same package (filters in reverse order) now puts %s first with '
                      'chi2=%r, A_V=%r, scale=%r' % (p0['what'], str(ie.model_name[0]).strip(), float(ie.chi2[0]), float(ie.av[0]),
                                                      float(ie.sc[0])), 'c08:other_fitter_disturbed')
@@ -308,9 +308,9 @@ def run_case(case, ctx):
                 fail('%s: best fit is %s (chi2=%r), not the planted model' % (plant, best, chi2), 'c08:wrong_model_first')
             if not chi2 <= 1e-6 + 2 * p['slack0']:
                 fail('%s: best chi2 is %r, expected ~0' % (plant, chi2), 'c08:chi2_not_zero')
-            if abs(av - p['av0']) > p['av_tol']:
+            if not (abs(av - p['av0']) <= p['av_tol']):
                 fail('%s: reported A_V %r (tolerance %.2e)' % (plant, av, p['av_tol']), 'c08:av_not_recovered')
-            if abs(sc - p['sc0']) > p['sc_tol']:
+            if not (abs(sc - p['sc0']) <= p['sc_tol']):
                 fail('%s: reported scale %r, expected %r' % (plant, sc, p['sc0']), 'c08:scale_not_recovered')
             # ---- parameter listing: source line, then one line per kept fit
             ndat = sum(1 for f_ in p['src']['flags'] if f_ in (1, 4))
@@ -330,7 +330,7 @@ def run_case(case, ctx):
                 if mm is None:
                     fail('%s: listing names an unknown model %r' % (plant, r.get('model_name')), 'c08:listing_wrong_model')
                 for col, vals in pkg['params'].items():
-                    if abs(float(r[col.lower()]) - vals[mm]) > 5.1e-4 * abs(vals[mm]):
+                    if not (abs(float(r[col.lower()]) - vals[mm]) <= 5.1e-4 * abs(vals[mm])):
                         fail('%s: listing row of %s shows %s = %s, that model has %r' % (plant, names[mm], col, r[col.lower()],
                                                                                        vals[mm]), 'c08:listing_wrong_parameters')
     if pkg['perm'] != sorted(pkg['perm']):
